@@ -102,9 +102,9 @@ pub fn decode(pixel_data: &[u8], width: usize, height: usize, with_alpha: bool) 
                         let g_comp_input = ((pixels >> ETC_GREEN2_OFFSET) & 7) as u8;
                         let b_comp_input = ((pixels >> ETC_BLUE2_OFFSET) & 7) as u8;
 
-                        let r2 = r + complement(r_comp_input, 3);
-                        let g2 = g + complement(g_comp_input, 3);
-                        let b2 = b + complement(b_comp_input, 3);
+                        let r2 = r.wrapping_add(complement(r_comp_input, 3));
+                        let g2 = g.wrapping_add(complement(g_comp_input, 3));
+                        let b2 = b.wrapping_add(complement(b_comp_input, 3));
 
                         color2[0] = (r2 << 3) | ((r2 >> 2) & 7);
                         color2[1] = (g2 << 3) | ((g2 >> 2) & 7);
